@@ -266,7 +266,7 @@ impl Property for History {
     fn budget(&self, tier: Tier) -> Budget {
         Budget {
             cases: tier.pick(600_000, 20_000_000),
-            tape_len: 1100,
+            tape_len: 6000,
         }
     }
     fn decode(&self, t: &mut Tape<'_>) -> HistCase {
